@@ -28,7 +28,15 @@ def pick_cases(engine, seed, n):
     if len(cases) <= n:
         return cases
     step = len(cases) / float(n)
-    return [cases[int(i * step)] for i in range(n)]
+    sel = [cases[int(i * step)] for i in range(n)]
+    # every kind of case is represented: the evenly spaced sample may skip a small class
+    # (e.g. the pre-loaded child cases of C10)
+    for flag in ("via_child",):
+        extra = [c for c in cases if c.get(flag) and c not in sel]
+        groups = sorted({c.get("group") for c in extra})
+        for g in groups:
+            sel.append([c for c in extra if c.get("group") == g][0])
+    return sel
 
 
 def digests(engine, cases, nproc):
